@@ -312,4 +312,34 @@ pub fn run_prop(ctx: &Ctx, sink: &mut Sink) {
         }
     }
     let _ = std::fs::remove_dir_all(&dir);
+    // ---- the numeric operand of the time tests: for every file exactly one of N / +N / -N holds
+    // (the ages sit inside a period, on its borders and just beside them)
+    {
+        use super::c15::{bits, selected, set_times, sys_time, times_of};
+        const NS: i128 = 1_000_000_000;
+        let errf = ctx.tmp.join("stderr14");
+        for (unit, period, prim) in [("m", 60 * NS, "-mmin"), ("d", 86400 * NS, "-mtime"), ("m", 60 * NS, "-amin")] {
+            let dir = ctx.scratch("agetri");
+            let now: i128 = 1_900_000_000 * NS + rng.below(1_000_000_000) as i128;
+            let ages: Vec<i128> = vec![0, 1, period / 2, period - 1, period, period + 1, period + period / 2, 2 * period - 1, 2 * period, 2 * period + period / 2, 3 * period + 7, 60 * period + period / 3];
+            for (i, age) in ages.iter().enumerate() {
+                let p = dir.join(format!("f{i:03}"));
+                std::fs::write(&p, b"").unwrap();
+                if prim == "-amin" { set_times(&p, now - age, now) } else { set_times(&p, now, now - age) }
+            }
+            let ts: Vec<i128> = (0..ages.len()).map(|i| { let t = times_of(&dir.join(format!("f{i:03}"))); if prim == "-amin" { t.0 } else { t.2 } }).collect();
+            for n in [0u64, 1, 2, 3, 60] {
+                let mut answers = vec![];
+                for form in ["", "+", "-"] {
+                    let args: Vec<String> = vec![dir.to_str().unwrap().into(), "-name".into(), "f*".into(), prim.into(), format!("{form}{n}"), "-print0".into()];
+                    let o = crate::frun::find_inproc(&errf, &args, sys_time(now), None);
+                    answers.push(if o.code == Some(0) { bits(&selected(&o.out, ages.len())) } else { format!("status-{}", o.status()) });
+                }
+                let tss: Vec<String> = ts.iter().map(|t| t.to_string()).collect();
+                let kind = if prim == "-amin" { "a" } else { "m" };
+                sink.push(Case { req: format!("age-e2e {kind} {unit} {n} {now} {}", tss.join(",")), imp: answers.join(" "), tags: vec!["age-trichotomy", "e2e", "nt"] });
+            }
+            let _ = std::fs::remove_dir_all(&dir);
+        }
+    }
 }
